@@ -62,11 +62,15 @@ def checkOptMeu (kvs okv : List (String × String)) : String := Id.run do
   let some util := (lookup kvs "util").bind parseNatList | return "FAIL PARSE util"
   let some us := (lookup kvs "us").bind parseNatList | return "FAIL PARSE us"
   let uls := ((lookup kvs "uls").bind parseNatList).getD []
+  let ups := ((lookup kvs "ups").bind parseNatList).getD []
   let some pr := (lookup kvs "pr").bind parseNatList | return "FAIL PARSE pr"
   let w : Weights Sem.EU := fun v =>
     if dec.contains v then (⟨1, 0⟩, ⟨1, 0⟩)
     else match util.idxOf? v with
-      | some i => (⟨1, (uls.getD i 0 : Nat)⟩, ⟨1, (us.getD i 0 : Nat)⟩)
+      | some i =>
+        let k := ups.getD i 9
+        if k == 9 then (⟨1, (uls.getD i 0 : Nat)⟩, ⟨1, (us.getD i 0 : Nat)⟩)
+        else (⟨1 - mkRat k 8, (uls.getD i 0 : Nat)⟩, ⟨mkRat k 8, (us.getD i 0 : Nat)⟩)
       | none => let k : Rat := mkRat (pr.getD v 0) 8; (⟨k, 0⟩, ⟨1 - k, 0⟩)
   let vars := List.range n
   let best := meuSpec d.eval dec order w
